@@ -226,6 +226,32 @@ _C10 = {
 for (cls, construct), (wf, rp) in _C10.items():
   TRIAGE[("C10", "R4", Q + cls + ".__str__", construct)] = {
       "what_fails": wf, "replayed": rp}
+# repaired by 41c3b09 (po2 printers)
+for _k in (("quantized_po2", "printer-raises:TypeError"),
+           ("quantized_relu_po2", "printer-raises:TypeError"),
+           ("quantized_relu_po2", "reparsed-differs:negative_slope")):
+  TRIAGE[("C10", "R4", Q + _k[0] + ".__str__", _k[1])].update(
+      status="fixed", commit="41c3b09")
+for _k, _commit in (
+    (("quantized_linear", "printer-raises:UnboundLocalError"), "0303fec"),
+    (("quantized_hswish", "printer-raises:AssertionError"), "11ca6da"),
+    (("quantized_relu", "reparsed-differs:negative_slope"), "52302af"),
+    (("quantized_relu", "reparsed-differs:use_stochastic_rounding"),
+     "52302af"),
+    (("quantized_tanh", "reparsed-differs:symmetric"), "639caf6"),
+    (("quantized_tanh", "reparsed-differs:use_real_tanh"), "639caf6"),
+    (("quantized_sigmoid", "reparsed-differs:use_real_sigmoid"), "1626f05"),
+    (("quantized_sigmoid", "reparsed-differs:use_stochastic_rounding"),
+     "1626f05")):
+  TRIAGE[("C10", "R4", Q + _k[0] + ".__str__", _k[1])].update(
+      status="fixed", commit=_commit)
+for _c in ("quantized_po2", "quantized_relu_po2"):
+  TRIAGE[("C10", "R4", Q + _c + ".__str__", "reparsed-differs:max_value")] = {
+      "status": "fixed", "commit": "41c3b09",
+      "what_fails": "%s.__str__ printed int(max_value): max_value=0.5 was "
+                    "printed as 0 and parsed back as max_value=0" % _c,
+      "replayed": "get_quantizer(str(%s(8, max_value=0.5))).max_value == 0 "
+                  "on the real code before the fix" % _c}
 _NOT_PRINTED = {
     "quantized_linear": ["qnoise_factor", "scale_axis"],
     "quantized_bits": ["elements_per_scale", "max_po2_exponent",
@@ -235,6 +261,8 @@ _NOT_PRINTED = {
                        "relu_upper_bound"],
     "quantized_po2": ["log2_rounding", "qnoise_factor"],
     "quantized_relu_po2": ["log2_rounding", "qnoise_factor"],
+    # visible since the printer no longer raises (11ca6da)
+    "quantized_hswish": ["qnoise_factor", "scale_axis"],
 }
 for cls, opts in _NOT_PRINTED.items():
   for o in opts:
